@@ -196,6 +196,12 @@ def _expr(draw, ty, depth, ivars):
         if recv.startswith("["):
             recv = "s1"
         return f"({recv}).{name}({', '.join(extra)})"
+    if k == 10 and draw(st.booleans()):
+        # a fold the user wrote out (or an earlier pass produced): an ordinary call - shortcuts in its sequence, in its seed and
+        # inside its accumulator lambda are lowered like anywhere else
+        b_ = draw(st.sampled_from(["v", "w", "b_"]))
+        return (f"Aggregate({draw(_expr('S', depth - 1, ivars))}, {draw(_expr('I', depth - 1, ivars))}, "
+                f"lambda a_, {b_}: a_ + {draw(_expr('I', depth - 1, ivars + [b_]))})")
     if k == 9:  # bare reference
         return f"keep({draw(st.sampled_from(NAMES))}, {draw(_expr('I', depth - 1, ivars))})"
     if k == 10:
